@@ -509,8 +509,8 @@ HARNESSES = [
             oracle='non-deterministic set model from the statement (declared/inherit per class, direct per object; a declaration implied at the '
                    'moment it is made may be kept or dropped); every observation must be consistent with one admissible state'),
     Harness('e_decl_narrowing', make_e, kind='E', impls=('py', 'c'),
-            tiers=dict(quick=dict(budget_s=150, parts=15, params=dict(L=4, full='narrowing'), impls=('py',)),
-                       thorough=dict(budget_s=2400, parts=15, params=dict(L=5, full='narrowing'))),
+            tiers=dict(quick=dict(budget_s=170, parts=16, params=dict(L=4, full='narrowing'), impls=('py',)),
+                       thorough=dict(budget_s=2400, parts=16, params=dict(L=5, full='narrowing'))),
             encoded=_ENC,
             bounds=_B + 'every history of <=4 (thorough 5, both builds) ops from a 15-op alphabet that interleaves instance declarations on two '
                         'instances of one class with widening and narrowing (classImplementsOnly) of that class and of its base',
